@@ -409,13 +409,6 @@ std::vector<K> gen_keys(TapeReader &t, const GenOpts &o, KeyMeta &meta) {
         for (size_t i = 0; i < m.size(); ++i) {
             if (m[i] == 0 && !f.empty() && f.back() == 0) continue;
             run = (!f.empty() && f.back() == m[i]) ? run + 1 : 1;
-            // KNOWN FINDING KF-1 (excluded by construction, counted): for double keys the guard point after a run of
-            // duplicates is 1 ulp away; the builder's long double arithmetic then loses ~run*2^-12 ranks of the
-            // intercept (construction throws from ~8000 duplicates on). Runs are capped at 1024 for double keys.
-            if (sizeof(K) == 8 && run > 1024) {
-                meta.excluded_known = true;
-                continue;
-            }
             f.push_back(m[i]);
         }
         if (f.back() == 0) f.push_back(1);
